@@ -71,7 +71,7 @@ var triggers = []trigger{
 			case mach.MVP61:
 				return f.shadowHasWork
 			case mach.MVP62:
-				return nested || (f.shadowHasWork && (f.regRewrittenAroundBranch || f.shadowHasStore))
+				return f.shadowHasWork
 			}
 			return nested || f.shadowHasStore
 		},
@@ -88,12 +88,13 @@ var triggers = []trigger{
 		},
 	},
 	{
-		// MVP-6.3/7.x/8: a load and a younger writer of the same register are both
-		// renamed; when a commit/rollback (conditional branch) or the end of the run
-		// falls between their completions, the slower load's value lands last.
+		// MVP-6.3/7.x/8: two writers of one register are both renamed; when a
+		// commit/rollback (conditional branch) or the end of the run falls between
+		// their completions (the older one is a load, waits for a load, or is held
+		// up by write-bus back-pressure), the older value lands last.
 		id: "KF-W4", props: wmProps,
 		match: func(c *core.Case, f *features, class string) bool {
-			return c.Cfg.V >= mach.MVP63 && f.loadDestOverwritten && isMismatch(class)
+			return c.Cfg.V >= mach.MVP63 && (f.loadDestOverwritten || f.wawBeforeBranch) && isMismatch(class)
 		},
 	},
 	{
